@@ -29,7 +29,7 @@ SIG = {
     # ---- defined functions (result sorts for `opaque=`) ------------------------------------------------------------
     'ccm_flags': 'int[nat]', 'ccm_b0': 'bytes', 'ccm_hdr': 'bytes', 'ccm_hdr_len': 'int[nat]', 'ccm_ctr0': 'bytes',
     'ccm_s0': 'bytes', 'ccm_fmt': 'bytes', 'ccm_tag': 'bytes', 'ccm_crypt': 'bytes', 'zpad': 'bytes', 'up16': 'int[nat]',
-    'pow256': 'int[nat]', 'ccm_a_start': 'int[nat]', 'ccm_a_end': 'int[nat]', 'ccm_p_start': 'int[nat]',
+    'pow256': 'int[nat]', 'cat': 'bytes', 'ccm_a_start': 'int[nat]', 'ccm_a_end': 'int[nat]', 'ccm_p_start': 'int[nat]',
     's2v_dbl': 'bytes', 's2v_final': 'bytes', 'siv_ctr0': 'bytes',
     'kw_step': 'bytes', 'kw_unstep': 'bytes',
     'ocb_nonce': 'bytes', 'ocb_ktop_in': 'bytes', 'ocb_offset0': 'bytes', 'ocb_stretch': 'bytes',
@@ -99,6 +99,12 @@ def pow256(k):
     if k == 8:
         return 18446744073709551616
     return pow2(8 * k)
+
+
+def cat(fed, cache):
+    """the CBC-MAC input stream so far: bytes already encrypted by the CBC object, then the cached partial block.
+    (A named function so that proofs which do not care about the cut can keep the stream as one opaque term.)"""
+    return fed + cache
 
 
 def up16(n):
